@@ -271,9 +271,9 @@ PROPS["C01"] = {
     "design_ref": "DESIGN.md section 5 (loop-step family, C01)",
     "explanation": "Real framework code from go/ssa, system calls redirected to the ghost kernel (internal/vk) in scratch copies of the calling files.",
     "bounds": {"reads_per_event": "1 quick / 2 thorough; 3 in VH_C01_RdHupDrain3 (sizes <= 4)", "sizes": "<= 2^31", "handler": "one of none/Read/Next/Peek+Discard/WriteTo per event with symbolic sizes"},
-    "outside": ["real kernel behaviour beyond the stub contract", "cross-event schedules (covered inductively by the invariant)"],
+    "outside": ["real kernel behaviour beyond the stub contract", "cross-event schedules beyond the reactor harness (covered inductively by the invariant; the reactor harness runs the ET chunk-limit follow-up chain with sizes <= 3 / 4)"],
     "assumptions": ["ghost kernel contract", "pool contracts (C12)"],
-    "units": [dict(_LOOP_COMMON, name="loop-inbound", files=["harness/gnet/vloop_world.go", "harness/gnet/c01_inbound.go"], cfg={"vcfg": {"reads": 1, "nodes": 1, "any_inbound_et": 0}}, cfg_thorough={"vcfg": {"reads": 2, "nodes": 1, "any_inbound_et": 1}})],
+    "units": [dict(_LOOP_COMMON, name="loop-inbound", files=["harness/gnet/vloop_world.go", "harness/gnet/c01_inbound.go", "harness/gnet/c01_reactor.go"], cfg={"vcfg": {"reads": 1, "nodes": 1, "any_inbound_et": 0}}, cfg_thorough={"vcfg": {"reads": 2, "nodes": 1, "any_inbound_et": 1}})],
 }
 
 PROPS["C04"] = {
@@ -353,7 +353,7 @@ PROPS["C13"] = {
              {"name": "D_E_E_DD", "threads": ["VT_D_P1", "VT_D_P2", "VT_D_C"], "rounds": 3, "unwind": 3},
              {"name": "C_EE_D_DD", "threads": ["VT_C_P", "VT_C_C1", "VT_C_C2"], "rounds": 3, "unwind": 4},
              {"name": "B_EE_E_DDD", "threads": ["VT_B_P1", "VT_B_P2", "VT_B_C"], "rounds": 3, "unwind": 3, "tier": "thorough"},
-             {"name": "E_EE_E_DD_D", "threads": ["VT_E_P1", "VT_E_P2", "VT_E_C1", "VT_E_C2"], "rounds": 3, "unwind": 3, "tier": "thorough"},
+             {"name": "E_EE_E_DD_D", "threads": ["VT_E_P1", "VT_E_P2", "VT_E_C1", "VT_E_C2"], "rounds": 3, "unwind": 4, "tier": "thorough"},
          ],
          "extra_fns": ["VT_Quiescent"]},
     ],
